@@ -65,7 +65,9 @@ OnStep ==
     /\ LET t   == Line.t
            o   == Line.obs
            pre == s.th[t].pc = Line.at /\ Enabled(s, t)
-           s2  == IF pre THEN StepT(s, t) ELSE s
+           stuckW == Line.to = "stuck" /\ s.th[t].pc = Line.at /\ CanQueue(s, t)
+           stuckR == Line.to = "stuck" /\ s.th[t].pc = Line.at /\ NeedsSr(Line.at) /\ ~Enabled(s, t)
+           s2  == IF stuckW THEN Queue(s, t) ELSE IF pre THEN StepT(s, t) ELSE s
            \* calls that start in this step see the value at invocation
            starts == Line.at = "call"
            curk(u) == IF oopi[u] <= Len(sc.threads[u]) THEN KeyOf(OpOf(u, oopi[u])) ELSE 0
@@ -81,15 +83,14 @@ OnStep ==
              Fail(~o.has_idx \/ \A k \in Keys : o.idx[k] # Absent => o.idx[k] \in SeqToSet(o.cas), "C04:dangling-reference"),
              Fail(o.casbad = <<>>, "C06:blob-bytes"),
              UNION { RetFails(rets[i], seen1[rets[i].t]) : i \in 1..Len(rets) },
-             Fail(Line.to # "stuck", "C15:thread-stuck-in-lock"),
              \* ---- refinement
-             Fail(pre, "DRIFT:model-thread-not-at-" \o Line.at),
-             IF pre THEN UNION {
+             Fail(pre \/ stuckW \/ stuckR, "DRIFT:model-thread-not-at-" \o Line.at),
+             IF pre /\ Line.to # "stuck" THEN UNION {
                  Fail(s2.th[t].pc = Line.to \/ (Line.to = "done" /\ s2.th[t].pc = "done"), "DRIFT:next-point-" \o Line.to \o "-model-" \o s2.th[t].pc),
                  Fail(~o.has_idx \/ o.idx = s2.idx, "DRIFT:index"),
                  Fail(~o.has_intents \/ o.intents = s2.intents, "DRIFT:intents"),
                  Fail(SeqToSet(o.cas) = s2.cas, "DRIFT:cas"),
-                 Fail(o.mask.i = (s2.lkI # 0) /\ (o.mask.s = 2) = (s2.lkS # 0) /\ (o.mask.s = 1) = (s2.rd # {})
+                 Fail(o.mask.i = (s2.lkI # 0) /\ (o.mask.s = 2) = (s2.lkS # 0 \/ s2.wq # {}) /\ (o.mask.s = 1) = (s2.rd \cup s2.ug # {} /\ s2.wq = {})
                       /\ o.mask.w = (s2.lkW # 0), "DRIFT:lock-mask"),
                  UNION { LET r == rets[i] IN
                          Fail(~r.res.ok \/ (r.res.val = s2.th[r.t].res /\ (r.res.val = "count" => r.res.n = s2.th[r.t].resn)),
